@@ -1020,13 +1020,13 @@ impl<D: Distance> Writer<D> {
                 let mut new_items = RoaringBitmap::from_iter([current_node.item]);
                 new_items |= to_insert;
 
-                if !self.fit_in_descendant(opt, new_items.len()) {
-                    large_descendants.insert(current_node.item);
-                }
-
                 if new_items.len() > 1 {
                     let node_id = frozen_reader.concurrent_node_ids.next()?;
                     let node_id = NodeId::tree(node_id);
+                    // It's the new descendants node that may be too large, not the item itself.
+                    if !self.fit_in_descendant(opt, new_items.len()) {
+                        large_descendants.insert(node_id.item);
+                    }
                     tmp_nodes.put(
                         node_id.item,
                         &Node::Descendants(Descendants {
